@@ -168,13 +168,13 @@ MapChoices(k, ms, p) == IF p # "none" \/ Len(ms) > 2 THEN {"none"}
                         ELSE {"none", "cover", "other"}
 OpTypeChoices(k) == IF k \in OpTypeKinds THEN {"grant", "revoke"} ELSE {"na"}
 \* sibling drops: for the kinds that consult the create / drop records (parent object, list members), at every level of the key
-\* above or beside the object; varied without injected failure, earlier-hop stamp or name mapping
+\* above or beside the object; varied without injected failure, earlier-hop stamp, name mapping or 2.5 schema attributes
 SibLevels(k) == CASE k \in PartListKinds -> {"db", "coll", "member"}
                   [] k = "Flush" -> {"db", "member"}
                   [] k \in {"EvCreateCollection", "EvDropCollection"} -> {"db"}
                   [] k \in ObjKinds -> {"db", "coll"}
                   [] OTHER -> {}
-SibChoices(k, f, p, mp) == IF f \/ p # "none" \/ mp # "none" THEN {"none"} ELSE {"none"} \cup SibLevels(k)
+SibChoices(k, f, p, mp, sc) == IF f \/ p # "none" \/ mp # "none" \/ sc = "v25" THEN {"none"} ELSE {"none"} \cup SibLevels(k)
 RelChoices(sb) == IF sb = "none" THEN {"na"} ELSE {"pre", "ext"}
 \* the origin of the drop records matters only when there is one
 HasDropped(o, ms) == o = "dropped" \/ \E i \in 1..Len(ms) : ms[i] = "D"
@@ -186,7 +186,7 @@ MessagesOf(k) ==
             optype : OpTypeChoices(k), sib : Sibs, rel : {"na", "pre", "ext"}, via : Vias] :
         /\ m.pre \in PreChoices(k, m.obj, m.members, m.fail)
         /\ m.map \in MapChoices(k, m.members, m.pre)
-        /\ m.sib \in SibChoices(k, m.fail, m.pre, m.map)
+        /\ m.sib \in SibChoices(k, m.fail, m.pre, m.map, m.schema)
         /\ m.rel \in RelChoices(m.sib)
         /\ m.via \in ViaChoices(m.obj, m.members, m.fail, m.pre, m.map)
         /\ (SkipBase => ~IsBase(m))}
